@@ -2199,11 +2199,13 @@ class DtsAccessor:
 
             if conf_ints:
                 new_chunks = (len(conf_ints), mcparams["tmpf_mc_set"].chunks[2])
-                avg_axis = mcparams["tmpf_mc_set"].get_axis_num(["mc", x_dim2])
+                # a name of its own: the lambda is evaluated lazily and the
+                # ci_avg_time_flag1 block below defines `avg_axis` as well
+                avg_axis_avgx1 = mcparams["tmpf_mc_set"].get_axis_num(["mc", x_dim2])
                 q = mcparams["tmpf_mc_set"].data.map_blocks(
-                    lambda x: np.percentile(x, q=conf_ints, axis=avg_axis),
+                    lambda x: np.percentile(x, q=conf_ints, axis=avg_axis_avgx1),
                     chunks=new_chunks,  #
-                    drop_axis=avg_axis,
+                    drop_axis=avg_axis_avgx1,
                     # avg dimensions are dropped from input arr
                     new_axis=0,
                 )  # The new CI dim is added as firsaxis
